@@ -359,3 +359,104 @@ def _bias(fn, op):
                 if "count" in l or "read_var" in l or "read" in l:
                     out.add(c[0])
     return out
+
+
+# ---------------------------------------------------------------- packed words of the v2 run-length columns
+def _bins(term, *ops):
+    return [t for t in walk(term) if t[0] == "bin" and t[1] in ops]
+
+
+def _const(t):
+    t = simp(t)
+    return t[1] if t[0] == "const" and isinstance(t[1], int) and not isinstance(t[1], bool) else None
+
+
+def _calls(term, *names):
+    return [t for t in walk(term) if t[0] == "call" and any(re.search(n, t[1]) for n in names)]
+
+
+def _field_writes_terms(fn, suffix):
+    v = FnView(fn)
+    out = []
+    for i, j, st in fn.stmts():
+        d = st["dst"]
+        if isinstance(d, dict) and d["p"] and isinstance(d["p"][-1], str) and d["p"][-1].endswith(suffix):
+            out.append((st, v.terms.rvalue(st["rv"], 20)))
+    return out
+
+
+def rule_packed(R, ctx, rid="C09.packed"):
+    Y = ctx.yrs
+    R.rule(rid, "R-TABLE inverse operators of packed words: the v2 diff column packs `diff << k | has_count` and its reader unpacks "
+                "with the inverse operators on the same k (arithmetic `>> k` of the signed word — a signed division rounds the other "
+                "way for negative odd words — and `& (2^k - 1)` for the flag); the running value is rebuilt with the inverse of the "
+                "writer's difference (sub/add); the unsigned run column negates on write and on read")
+    enc = "yrs::updates::encoder::"
+    dec = "yrs::updates::decoder::"
+    # ---- IntDiffOptRle
+    wf = Y.fn(enc + "IntDiffOptRleEncoder::flush")
+    ww = Y.fn(enc + "IntDiffOptRleEncoder::write_u32")
+    rf = Y.fn(dec + "IntDiffOptRleDecoder::read_u32")
+    wv = FnView(wf)
+    words = [wv.arg(cs, 1, 20) for cs in wf.calls() if re.search(r"::write_var(_signed)?$", F.strip_generics(cs.name)) and len(cs.args) > 1]
+    shl = [b for w in words for b in _bins(w, "Shl") if term_has_field(b[2], "IntDiffOptRleEncoder.diff")]
+    k = _const(shl[0][3]) if shl else None
+    R.ob(rid, wf, "pack:diff", k is not None, "writer packs the diff shifted left by %s" % k if k is not None else
+         "no `self.diff << const` in a written word: %s" % [sshow(w, 8) for w in words])
+    if k is not None:
+        ors = [b for w in words for b in _bins(w, "BitOr") if shl[0] in list(walk(b))]
+        flags = []
+        for b in ors:
+            other = b[3] if shl[0] in list(walk(b[2])) else b[2]
+            flags += [c for c in (_const(x) for x in walk(other)) if c is not None]
+        R.ob(rid, wf, "pack:flag", bool(flags) and all(0 <= c < (1 << k) for c in flags),
+             "flag values %s fit below bit %d" % (sorted(set(flags)), k))
+        dws = _field_writes_terms(rf, "IntDiffOptRleDecoder.diff")
+        R.floor(rid, "reader writes of IntDiffOptRleDecoder.diff", len(dws), 1)
+        for n, (st, t) in enumerate(dws):
+            t2 = simp_deep(t)
+            ok = False
+            why = sshow(t2, 8)
+            if t2[0] == "bin" and t2[1] == "Shr" and _const(t2[3]) == k and _calls(t2[2], r"::read_var(_signed)?$"):
+                ok = True
+            elif t2[0] == "bin" and t2[1] == "Div" and _const(t2[3]) == (1 << k) and str(st["rv"].get("ty", "")).startswith("u"):
+                ok = True  # unsigned division by 2^k is the same function as the shift
+            R.ob(rid, rf, "unpack:diff#%d" % n, ok,
+                 ("reader unpacks the diff as %s" % why) if ok else
+                 "reader computes the diff as %s, which is not the inverse of the writer's `diff << %d` on signed words "
+                 "(expected an arithmetic shift right by %d of the value read)" % (why, k, k), "%s:%s" % (rf.file, st["line"]))
+        masks = []
+        for i, j, st in rf.stmts():
+            rv = st["rv"]
+            if rv.get("bin") == "BitAnd":
+                for o in (rv["a"], rv["b"]):
+                    c = const_of_op(o)
+                    if c is not None:
+                        masks.append(c)
+        R.ob(rid, rf, "unpack:flag", (1 << k) - 1 in masks, "reader masks the flag with %s (expected %d)" % (masks, (1 << k) - 1))
+    # running value: writer difference / reader sum
+    wd = [t for _, t in _field_writes_terms(ww, "IntDiffOptRleEncoder.diff")]
+    sub_ok = any((_bins(t, "Sub", "SubWithOverflow") or _calls(t, r"wrapping_sub$")) and term_has_field(t, "IntDiffOptRleEncoder.last") for t in wd)
+    R.ob(rid, ww, "delta:sub", sub_ok, "writer stores value - last: %s" % [sshow(t, 6) for t in wd])
+    rl = [t for _, t in _field_writes_terms(rf, "IntDiffOptRleDecoder.last")]
+    add_ok = bool(rl) and all((_bins(t, "Add", "AddWithOverflow") or _calls(t, r"wrapping_add$")) and term_has_field(t, "IntDiffOptRleDecoder.last")
+                              and term_has_field(t, "IntDiffOptRleDecoder.diff") for t in rl)
+    R.ob(rid, rf, "delta:add", add_ok, "reader rebuilds last + diff: %s" % [sshow(t, 6) for t in rl])
+    # ---- UIntOptRle: run marker is the negated value
+    uw = Y.fn(enc + "UIntOptRleEncoder::flush")
+    ur = Y.fn(dec + "UIntOptRleDecoder::read_u64")
+    uv = FnView(uw)
+    uwords = [(F.strip_generics(cs.name), uv.arg(cs, 1, 20)) for cs in uw.calls() if re.search(r"::write_var(_signed)?$", F.strip_generics(cs.name)) and len(cs.args) > 1]
+    neg_w = any(nm.endswith("write_var_signed") and ([x for x in walk(t) if x[0] == "un" and x[1] == "Neg"] or _calls(t, r"wrapping_neg$"))
+                and term_has_field(t, "UIntOptRleEncoder.last") for nm, t in uwords)
+    R.ob(rid, uw, "run:neg", neg_w, "writer marks a run by writing the negated value as a signed var-int: %s" % [sshow(t, 6) for _, t in uwords])
+    ul = [t for _, t in _field_writes_terms(ur, "UIntOptRleDecoder.last")]
+    neg_r = any(([x for x in walk(t) if x[0] == "un" and x[1] == "Neg"] or _calls(t, r"wrapping_neg$")) and _calls(t, r"read_var_signed$") for t in ul)
+    plain_r = any(not ([x for x in walk(t) if x[0] == "un" and x[1] == "Neg"] or _calls(t, r"wrapping_neg$")) and _calls(t, r"read_var_signed$") for t in ul)
+    R.ob(rid, ur, "run:neg", neg_r and plain_r, "reader negates the value of a run marker and takes a single value as is: %s" % [sshow(t, 6) for t in ul])
+
+
+def const_of_op(op):
+    if isinstance(op, dict) and isinstance(op.get("k"), int) and not isinstance(op.get("k"), bool):
+        return op["k"]
+    return None
